@@ -1,56 +1,56 @@
 package props
 
-import (
-	"fmt"
-
-	"verifharness/internal/impl"
-)
-
-// corrLex compares the real lexer with the Lean model on a batch of inputs (op `lex`).
-func (c *Ctx) corrLex(inputs [][]byte, space string) {
-	reqs := make([]string, len(inputs))
-	for i, in := range inputs {
-		reqs[i] = "lex " + impl.HexW(in)
-	}
-	model := c.Driver.Map(reqs)
-	for i, in := range inputs {
-		goObs := impl.Call("lex", []string{impl.HexW(in)})
-		c.Ev.Traces++
-		if goObs != model[i] {
-			c.Report("correspondence", "lex-model-differs", fmt.Sprintf("lexer and Lean model disagree on %q (%s): go=%s model=%s", in, space, goObs, model[i]),
-				map[string]any{"op": "lex", "input_hex": impl.HexW(in), "go_observation": goObs, "model_observation": model[i]})
-		}
-	}
-}
-
-func checkC03(c *Ctx) {
+// enumLex runs f over the lex19 space in batches.
+func (c *Ctx) enumSpace(alpha [][]byte, maxLen int, space string, f func(batch [][]byte, space string)) {
 	var batch [][]byte
-	flush := func() {
-		c.corrLex(batch, "lex19")
-		batch = batch[:0]
-	}
-	EnumUpTo(Lex19, c.Pick(4, 5), func(s []byte) {
+	EnumUpTo(alpha, maxLen, func(s []byte) {
 		batch = append(batch, append([]byte(nil), s...))
-		c.Ev.Case(string(s), len(s) > 1)
-		if len(batch) >= 100000 {
-			flush()
+		if len(batch) >= 200000 {
+			f(batch, space)
+			batch = batch[:0]
 		}
 	})
-	flush()
-	c.Ev.Exhaustive = true
-	c.Ev.Rule = "lex19: every string of at most N symbols over the 19 lexically significant symbols"
+	f(batch, space)
 }
 
-func init() { Checks["C03"] = checkC03 }
+func (c *Ctx) lexerExploration() {
+	c.enumSpace(Lex19, c.Pick(4, 5), "lex19", c.lexSweep)
+	c.enumSpace(LexRaw16, c.Pick(4, 5), "lexraw16", c.lexSweep)
+	// block-string bodies
+	var blocks [][]byte
+	for _, alpha := range [][][]byte{Block6, Block6Tab} {
+		EnumUpTo(alpha, c.Pick(6, 7), func(s []byte) {
+			b := append([]byte(`"""`), s...)
+			blocks = append(blocks, append(b, `"""`...))
+		})
+	}
+	c.lexSweep(blocks, "block6")
+	// repository corpus and random long inputs
+	qs, ss := RepoGraphQLInputs()
+	var corpus [][]byte
+	for _, q := range append(qs, ss...) {
+		corpus = append(corpus, []byte(q))
+	}
+	c.lexSweep(corpus, "repo-corpus")
+	n := c.Pick(100000, 2000000)
+	var rnd [][]byte
+	for i := 0; i < n; i++ {
+		if i%4 == 0 && len(corpus) > 0 {
+			rnd = append(rnd, MutateBytes(c.R, corpus[c.R.Intn(len(corpus))]))
+		} else {
+			rnd = append(rnd, GenBytes(c.R, 60))
+		}
+		if len(rnd) >= 200000 {
+			c.lexSweep(rnd, "random")
+			rnd = rnd[:0]
+		}
+	}
+	c.lexSweep(rnd, "random")
+	c.Ev.Exhaustive = true
+	c.Ev.Rule = "exhaustive: every string of ≤N symbols over lex19 (19 lexically significant symbols) and lexraw16 (raw bytes), every block-string body of ≤M symbols over 6 symbols (two variants); plus the repository's own test inputs, their random mutations and random byte strings. Non-trivial: ≥2 tokens, or a lexical error after ≥1 token; distinct by observation."
+}
 
 func init() {
-	Checks["X-lexrand"] = func(c *Ctx) {
-		var b [][]byte
-		EnumUpTo(LexRaw16, 4, func(s []byte) { b = append(b, append([]byte(nil), s...)) })
-		for i := 0; i < 200000; i++ {
-			b = append(b, GenBytes(c.R, 40))
-		}
-		c.corrLex(b, "raw+random")
-		c.Ev.Evals = len(b)
-	}
+	Checks["C03"] = func(c *Ctx) { c.lexerExploration() }
+	Checks["C04"] = func(c *Ctx) { c.lexerExploration() }
 }
